@@ -25,6 +25,11 @@ def render_item(it) -> str:
         return "[[" + "|".join(render(a) for a in it["args"]) + "]]"
     if k == "x":
         return "[http://x.y " + render(it["c"]) + "]"
+    if k == "pc":
+        s = "{{{" + render(it["name"])
+        if it["hasDef"]:
+            s += "|" + render(it["def"])
+        return s + "}}}"
     if k == "p":
         s = "{{{" + text(it["name"])
         if it["hasDef"]:
